@@ -145,6 +145,13 @@ def shim(module, *names, **explicit):
     return _impl.shim(module, names, explicit)
 
 
+def shim_all(*modules):
+    """install every standard shim that stands for a name the module uses (its imported struct/array/math/byte helpers)
+    plus the proxy-aware builtins (int, float, round, range, isinstance, bytes, bytearray, divmod, sum)"""
+    for m in modules:
+        _impl.shim_all(m)
+
+
 def shim_defaults(fn, **names):
     """replace default-argument captures of C builtins (pack=struct.pack, bytechr=bytechr) by shims (sym mode only)"""
     if MODE == 'sym':
